@@ -6,7 +6,8 @@ simulations with recording observers at intervals {1,2,3,-1,-2,-4}, a logger and
 (a) differential oracle - atoms, step counter, log/trajectory text and observer call logs equal
 those of one ``run(sum)``; (b) reference model of the observer schedule and of the header;
 (c) the simulation rebuilt from its dictionary between two calls: each call still performs
-exactly the requested number of steps.
+exactly the requested number of steps; (d) every observer attached again under its own name
+between two calls: nothing changes.
 """
 
 from __future__ import annotations
